@@ -27,6 +27,7 @@ type thread struct {
 	blocked any // sync object waited for; nil = enabled
 	vc      []int
 	result  any
+	held    int // number of locks currently held (accesses made under a lock are not preemption points)
 }
 
 // PointRec is one recorded choice point of an execution.
@@ -191,7 +192,13 @@ func Access(key any, name string, kind AccessKind, where string) {
 		return
 	}
 	e.AccessN++
-	e.point()
+	// An access made while holding a lock is not a preemption point: threads that follow the lock
+	// discipline cannot touch the variable now, and one that does not is reported as a race by the
+	// vector clocks on whatever schedule it runs. (Scheduling at synchronisation operations is
+	// sufficient once unsynchronised accesses are caught separately.)
+	if e.cur.held == 0 {
+		e.point()
+	}
 	e.record(key, name, kind, where)
 }
 
@@ -326,6 +333,13 @@ func Unblock(obj any) {
 		if t.blocked == obj {
 			t.blocked = nil
 		}
+	}
+}
+
+// Held adjusts the number of locks the current thread holds.
+func Held(delta int) {
+	if e := Active; e != nil && e.cur != nil {
+		e.cur.held += delta
 	}
 }
 
